@@ -10,7 +10,7 @@ use serde_json::{json, Value};
 pub static DEF: PropDef = PropDef {
     id: "C12",
     level: "exploration",
-    rule: "cases: files F from the container generator and arbitrary bytes x output capacity in {0, 1, need-1, need, \
+    rule: "cases: files F from the container generator, 36 deterministic tiny files (0..12 bytes, the empty file included) and arbitrary bytes x output capacity in {0, 1, need-1, need, \
 need+1, bound, bound+k} for WrapperCompressZip (plus one 96 MiB file, four sizes up to 127 MiB in the thorough tier, whose expanded form lies in the upper half of the 128 MiB limit) and {0, 1, |F|-1, |F|, |F|+1, |F|+k, and up to seven undersized capacities that end exactly at a write boundary of the reconstruction} for WrapperDecompressZip (need = size \
 produced with an ample buffer, bound = ZSTD_compressBound(|expanded|)); also arbitrary bytes as decompress input. Oracle: \
 output buffers are carved out of a larger allocation with 4 KiB guard bands of a known pattern on both sides and \
@@ -353,6 +353,21 @@ fn big_probes(ctx: &mut Ctx) {
 
 fn worker(ctx: &mut Ctx) {
     big_probes(ctx);
+    // deterministic tiny files (the empty file included: needed output size 0)
+    for (i, f) in tiny_files().iter().enumerate() {
+        if i as u32 % ctx.cfg.nshards != ctx.cfg.shard {
+            continue;
+        }
+        let doc = json!({"kind":"c12-file","hex":hex(f),"k":3});
+        ctx.set_inflight(&doc);
+        ctx.class("file:tiny(0..12 bytes, deterministic)");
+        if let Err(fl) = check(f, 3, ctx) {
+            if !ctx.is_known(&fl) {
+                ctx.record_failure(&fl, &doc);
+            }
+            return;
+        }
+    }
     let cases = match ctx.cfg.tier {
         Tier::Quick => 9_000u64,
         Tier::Thorough => 150_000u64,
